@@ -1,4 +1,5 @@
 import SctpVerif.Proofs.Shutdown
+import SctpVerif.Proofs.Sna
 /-!
 # C08 — graceful shutdown delivers everything first and completes on both sides
 
@@ -29,6 +30,46 @@ theorem C08_gates_match_code (st : Nat) (h : st < 8) :
     (st == stEstablished || st == stShutdownPending) = Gen.entersShutdownReceived (BitVec.ofNat 32 st) := by
   have : st = 0 ∨ st = 1 ∨ st = 2 ∨ st = 3 ∨ st = 4 ∨ st = 5 ∨ st = 6 ∨ st = 7 := by omega
   rcases this with h | h | h | h | h | h | h | h <;> subst h <;> decide
+
+/-- the state tests and the SACK decision the model re-types are the expressions of the code: every `if` condition on
+the association state in Shutdown, sendPayloadData, handleSack, handleShutdown, handleShutdownAck, handleShutdownComplete,
+the two non-terminal cases of gatherOutboundPriorityPackets and the `sackNow` / `gapDetected` assignments of handleData,
+as the translator reads them off association.go on this run (`Gen.sd_*`), agree with what `shutdownCall`, `write`,
+`handleSack`, `handleShutdown`, `handleShutdownAck`, `handleShutdownComplete`, `gatherPrio` and `handleData` of the
+model test — on all eight states and all flag values; the TSN comparison for every initial TSN and offsets below 2^31 -/
+theorem C08_sites_match_code (st : Nat) (h : st < 8) (f g : Bool) :
+    (st == stEstablished) = !Gen.sd_shutdownRefused (BitVec.ofNat 32 st) ∧
+    (st == stEstablished) = !Gen.sd_writeRefused (BitVec.ofNat 32 st) ∧
+    (!(st == stEstablished || st == stShutdownPending || st == stShutdownReceived)) = Gen.sd_sackIgnored (BitVec.ofNat 32 st) ∧
+    (st == stShutdownAckSent) = Gen.sd_shutdownInAckSent (BitVec.ofNat 32 st) ∧
+    (st == stShutdownSent) = Gen.sd_shutdownInSent (BitVec.ofNat 32 st) ∧
+    (!(st == stShutdownSent || st == stEstablished || st == stShutdownPending || st == stShutdownReceived))
+      = Gen.sd_shutdownNotHandled (BitVec.ofNat 32 st) ∧
+    (st == stShutdownSent || st == stShutdownAckSent) = Gen.sd_shutdownAckHandled (BitVec.ofNat 32 st) ∧
+    (st == stShutdownAckSent) = Gen.sd_shutdownCompleteHandled (BitVec.ofNat 32 st) ∧
+    (st == stShutdownAckSent && f) = Gen.sd_prioShutdownAck (BitVec.ofNat 32 st) f ∧
+    (st == stShutdownSent && f) = Gen.sd_prioShutdown (BitVec.ofNat 32 st) f ∧
+    (f || !g) = Gen.sd_dataSackNow false f g := by
+  have : st = 0 ∨ st = 1 ∨ st = 2 ∨ st = 3 ∨ st = 4 ∨ st = 5 ∨ st = 6 ∨ st = 7 := by omega
+  rcases this with h | h | h | h | h | h | h | h <;> subst h <;> cases f <;> cases g <;> decide
+
+/-- the gap test of handleData: `sna32GT(chunk.tsn, peerLastTSN + 1)` is the model's `pl < t` on offsets from ANY
+initial TSN `base` (offsets below 2^31) -/
+theorem C08_gap_test_matches_code (base : BitVec 32) (t pl : Nat) (ht : t < 2^31) (hp : pl < 2^31) :
+    Gen.sd_dataGap (base + BitVec.ofNat 32 t) (base + BitVec.ofNat 32 pl) = decide (pl < t) := by
+  have hiff := Sna.gt32_iff (base + BitVec.ofNat 32 t) (base + BitVec.ofNat 32 pl)
+  have hsub : ((base + BitVec.ofNat 32 t) - (base + BitVec.ofNat 32 pl)).toNat = (t + 2^32 - pl) % 2^32 := by
+    have h1 : (BitVec.ofNat 32 t).toNat = t := by simp [BitVec.toNat_ofNat]; omega
+    have h2 : (BitVec.ofNat 32 pl).toNat = pl := by simp [BitVec.toNat_ofNat]; omega
+    bv_omega
+  unfold Gen.sd_dataGap
+  by_cases hlt : pl < t
+  · have : Gen.sna32GT (base + BitVec.ofNat 32 t) (base + BitVec.ofNat 32 pl) = true := by
+      rw [hiff, hsub]; omega
+    simp [this, hlt]
+  · have : ¬ Gen.sna32GT (base + BitVec.ofNat 32 t) (base + BitVec.ofNat 32 pl) = true := by
+      rw [hiff, hsub]; omega
+    simp [this, hlt]
 
 /-- **Shutdown returned nil ⇒ everything was delivered first, in order, before closure.**
 In every reachable state (every interleaving, every fault pattern, every choice of what the write loop sends):
